@@ -6,7 +6,7 @@
    PARTIAL: "cleartext never appears on the wire" is a statement about the real cipher output; the
    theorem below shows every emitted datagram is a seal of the payload, the byte-level absence of
    the cleartext is checked on the real datagrams by py/props/c02.py. *)
-From VpnModel Require Import Base Nonce NonceProofs Replay Core CoreProofs Conn PeerCrypto SealProofs Table Node NodeProofs EndToEndProofs.
+From VpnModel Require Import Base Nonce NonceProofs Replay Core CoreProofs Conn PeerCrypto SealProofs Table Node NodeProofs EndToEndProofs NextHopProofs SealedWireProofs.
 
 (* what one end seals the other end opens byte-identical (same key under the key id, nonce reconstructible, window admits) *)
 Theorem C02_core_roundtrip : forall c1 c2 p, wf_core c1 -> wf_core c2 ->
@@ -103,6 +103,17 @@ Proof. exact pc_reject_silent. Qed.
 Theorem C02_rejected_unchanged : forall c d, is_ok (snd (core_decrypt c d)) = false -> fst (core_decrypt c d) = c.
 Proof. exact decrypt_fail_unchanged. Qed.
 
+(* NODE, every reachable state: a node whose configuration does not allow the plain algorithm never emits an unencrypted message, never puts its node information (addresses, claims, peer list) into a handshake message unsealed, and never holds an unencrypted connection - for every sequence of events (datagrams of any content from any source, interface reads, housekeeping, dials), at any times, with any handshake salts.  Invariant NE of every node step: each connection and handshake object keeps plain = false; a handshake object that is to answer with a payload already holds the negotiated cipher (IE), because select_algorithm cannot answer plain unless the own configuration allows it *)
+Theorem C02_no_cleartext_ever : forall salts c t0 evs, a_plain (c_algos c) = false ->
+  (forall dst w, In (XSend dst w) (nrun_fx salts (node_new c t0) evs) ->
+     match w with
+     | WPlain _ => False                                             (* never an unencrypted message *)
+     | WInit m => match im_payload m with Some (PPlain _) => False | _ => True end   (* node information in a handshake message: absent or sealed *)
+     | _ => True
+     end) /\
+  (forall a pd, aget (n_peers (nrun salts (node_new c t0) evs)) a = Some pd -> pc_plain (p_crypto pd) = false).
+Proof. exact no_cleartext_ever. Qed.
+
 (* header flips (key id, counter) are covered by C02_open_iff: the key id selects another slot (other
    key or none), a counter flip changes the reconstructed nonce, so the seal no longer matches *)
 Example C02_ex_roundtrip :
@@ -112,6 +123,12 @@ Example C02_ex_roundtrip :
   snd (core_decrypt b (snd (core_encrypt a [9;9;9]))) = Ok [9;9;9] /\
   is_ok (snd (core_decrypt a (snd (core_encrypt a [9;9;9])))) = false.
 Proof. vm_compute. split; reflexivity. Qed.
+
+(* the example node of NextHopProofs (plain not allowed) emits a handshake message with a sealed payload: C02_no_cleartext_ever is not vacuous *)
+Example C02_ex_sealed_payload : a_plain (c_algos cB) = false /\
+  existsb (fun e => match e with XSend _ (WInit m) => match im_payload m with Some (PSealed _) => true | _ => false end | _ => false end)
+          (nrun_fx salts (node_new cB 1) ex_evs) = true.
+Proof. exact ex_sealed_payload. Qed.
 
 Print Assumptions C02_core_roundtrip.
 Print Assumptions C02_nonce_reconstructed.
@@ -127,3 +144,4 @@ Print Assumptions C02_altered.
 Print Assumptions C02_truncated.
 Print Assumptions C02_rejected_silently.
 Print Assumptions C02_rejected_unchanged.
+Print Assumptions C02_no_cleartext_ever.
